@@ -72,6 +72,11 @@ def gen_cases(tier, seed):
                             {"op": "desc_set", "name": "one more"}, {"op": "desc_get"}]
                 if len(vals) > 1:
                     ops += [{"op": "desc_set", "name": descs[1][1]}, {"op": "desc_get"}]
+                # the scaling factor is changed after physical values have been written and read
+                for nfn, nfd in [f for f in ((1, 4), (-5, 2), (3, 1)) if f != (fn, fd)][:2]:
+                    ops.append({"op": "refactor", "fn": nfn, "fd": nfd})
+                    for r in (1, -3 if lo < 0 else 3, min(hi, 40) // abs(nfn)):
+                        ops += [{"op": "phys_set", "vn": r * nfn, "vd": nfd}, {"op": "phys_get"}]
                 cases.append({"kind": kind, "t": t, "fn": fn, "fd": fd, "descs": descs, "bitdefs": [], "ops": ops,
                               "fn_api": len(cases) % 2 == 1, "arr_member": kind == "sdo" and len(cases) % 3 == 0})
     # bit fields: every contiguous range within the type's width, four spellings
